@@ -231,8 +231,11 @@ namespace booster {
 		if(!d->are)
 			throw regex_error("booster::regex: Empty expression");
 		
-		int res = pcre_exec(d->are,0,begin,end-begin,0,PCRE_ANCHORED,0,0);
+		int ovec[3] = { 0, 0, 0 };
+		int res = pcre_exec(d->are,0,begin,end-begin,0,PCRE_ANCHORED,ovec,3);
 		if(res < 0)
+			return false;
+		if(ovec[0]!=0 || ovec[1]!=end-begin)
 			return false;
 		return true;
 	}
